@@ -21,6 +21,8 @@ def shapes(tier, seed):
     # the same constraints on statements inside a muted region (they emit nothing, but are not exempt)
     muted = []
     for s in instr_shapes(tier, seed, ['C12'], only=('t5', 't6', 't1:arg12', 't4:0', 't7:1')):
+        if s.params.get('context') or s.params.get('prelude'):
+            continue            # a context rewrites the source text: the muted form is built from the plain shapes only
         if 'rejected' in s.params.get('expect', []) and (tier != 'quick' or len(muted) < 14):
             muted.append(InstrShape('muted:' + s.sid, muted=True, **{k: v for k, v in s.params.items() if k not in ('files',)}))
     own = instr_shapes(tier, seed, ['C12'], only=('t5', 't6', 't4', 't7', 't8', 't1:arg12', 't1:arg5', 't1:arg8'))
